@@ -81,7 +81,16 @@ DEFAULTS = {
     # in-place use work), 1 = re-initialised (`assign(n, v)` / `clear(); resize(n)`) with fill byte outputFill
     "outputPrep": 0,
     "outputFill": 0,
+    # how the block counter advances in the loop of ChaCha20::apply: mode 0 = the block function is called with the
+    # std::uint32_t counter parameter itself and that parameter is incremented by one afterwards; mode 1 = called with
+    # `counter + idx` for a separate per-call index variable. counterWidth = bit width of the variable that is incremented.
+    "counterMode": 0,
+    "counterWidth": 32,
 }
+
+_INT_WIDTH = {"std::uint8_t": 8, "std::uint16_t": 16, "std::uint32_t": 32, "std::uint64_t": 64, "std::size_t": 64,
+              "unsigned": 32, "unsigned int": 32, "unsigned short": 16, "unsigned char": 8, "unsigned long": 64,
+              "unsigned long long": 64, "uint8_t": 8, "uint16_t": 16, "uint32_t": 32, "uint64_t": 64, "size_t": 64}
 
 _KEYWORDS = {"for", "while", "if", "switch", "catch", "return", "sizeof", "static_cast", "decltype"}
 _ID = r"[A-Za-z_]\w*"
@@ -382,6 +391,54 @@ def extract_tables() -> tuple[dict, list[str]]:
 
     attempt("outputPrep", output_prep)
 
+    def counter_advance():
+        cands = [f for f in fns if re.search(r"std::span<\s*const\s+std::uint8_t\s*>", f["params"])
+                 and re.search(r"std::vector<\s*std::uint8_t\s*>\s*&", f["params"])]
+        if len(cands) != 1:
+            raise ValueError(f"{len(cands)} functions (span<const uint8_t>, vector<uint8_t>&)")
+        f = cands[0]
+        ctr = [re.search(r"(" + _ID + r")\s*$", p_.strip()).group(1) for p_ in f["params"].split(",")
+               if re.fullmatch(r"(?:const\s+)?std::uint32_t\s+" + _ID + r"(?:\s*=\s*\w+)?", p_.strip())]
+        if len(ctr) != 1:
+            raise ValueError("uint32 counter parameter not recognised")
+        ctr = ctr[0]
+        mw = re.search(r"\bwhile\s*\([^{;]*\)\s*\{", f["body"])
+        if not mw:
+            raise ValueError("while loop not found")
+        head, loop = f["body"][:mw.start()], f["body"][mw.end():]
+        # the block-function call: the only call in the loop with four arguments the third of which mentions the counter
+        calls = [m for m in re.finditer(r"\b(" + _ID + r")\s*\(\s*(" + _ID + r")\s*,\s*(" + _ID + r")\s*,\s*([^,()]+?)\s*,\s*(" + _ID + r")\s*\)\s*;", loop)
+                 if re.search(r"\b" + re.escape(ctr) + r"\b", m.group(4))]
+        if len(calls) != 1:
+            raise ValueError(f"{len(calls)} candidate block-function calls in the loop")
+        arg, after = calls[0].group(4).strip(), loop[calls[0].end():]
+        if re.search(r"\b" + re.escape(ctr) + r"\b", head.replace(f["params"], "")) or \
+                len(re.findall(r"\b" + re.escape(ctr) + r"\b", loop)) != (2 if arg == ctr else 1):
+            raise ValueError("the counter is used in a way the translator does not understand")
+
+        def incremented(var, text):
+            v = re.escape(var)
+            return len(re.findall(r"(?:\+\+\s*" + v + r"\b|\b" + v + r"\s*\+\+|\b" + v + r"\s*\+=\s*1u?\s*;)", text))
+
+        if arg == ctr:
+            if incremented(ctr, after) != 1 or incremented(ctr, loop) != 1:
+                raise ValueError("counter increment after the block call not recognised")
+            return {"counterMode": 0, "counterWidth": 32}
+        m = re.fullmatch(re.escape(ctr) + r"\s*\+\s*(" + _ID + r")|(" + _ID + r")\s*\+\s*" + re.escape(ctr), arg)
+        if not m:
+            raise ValueError(f"counter argument {arg!r} not recognised")
+        idx = m.group(1) or m.group(2)
+        decl = re.search(r"((?:std::)?(?:u?int\d+_t|size_t)|unsigned(?:\s+(?:int|short|char|long(?:\s+long)?))?)\s+" + re.escape(idx) +
+                         r"\s*(?:=\s*0u?|\{\s*0?u?\s*\})\s*;", head)
+        if not decl or incremented(idx, after) != 1 or incremented(idx, loop) != 1:
+            raise ValueError(f"index variable {idx!r}: declaration or increment not recognised")
+        width = _INT_WIDTH.get(re.sub(r"\s+", " ", decl.group(1)))
+        if width is None:
+            raise ValueError(f"width of {decl.group(1)!r} unknown")
+        return {"counterMode": 1, "counterWidth": width}
+
+    attempt("counterAdvance", counter_advance)
+
     def derive_terms():
         msrc = _strip_comments((REPO / MANAGER).read_text(errors="replace"))
         hits = [t[1] for f in _functions(msrc) if "ChunkId" in f["params"] and len(_param_names(f["params"])) == 1
@@ -435,6 +492,11 @@ def extract():
         "    1 = re-initialised (`assign(n, v)` or `clear(); resize(n[, v])`) with fill byte `outputFill` -/",
         f"def outputPrep : Nat := {v['outputPrep']}",
         f"def outputFill : UInt8 := {v['outputFill']}",
+        "/-- how the block counter advances in the loop of `ChaCha20::apply`: mode 0 = `chacha20_block(…, counter, …); ++counter;`",
+        "    on the `std::uint32_t` parameter; mode 1 = `chacha20_block(…, counter + idx, …); ++idx;` with a separate index",
+        "    variable. `counterWidth` = bit width of the variable that is incremented. -/",
+        f"def counterMode : Nat := {v['counterMode']}",
+        f"def counterWidth : Nat := {v['counterWidth']}",
     ])
     write_generated(PID, body)
     return gaps
@@ -633,6 +695,11 @@ def generate(ctx, budget):
         op = ["apply", "applyinplace", "twice", "apply", "inplacetwice", "applyinplace"][i % 6]
         cases.append(Case(ops=[f"{op} {key} {nonce} {ctr} gen:{n}:{rng.getrandbits(48)}"], tag="long"))
     if ctx.tier == "thorough":
+        # one call over more than 65536 blocks (4 MiB): a block index narrower than 32 bits wraps inside the call.
+        # ~11 s / 0.5 GB (4 MiB) and ~22 s / 1 GB (8 MiB) in the Lean driver, hence thorough only.
+        for n in (4 * 1024 * 1024 + 133, 8 * 1024 * 1024):
+            for ctr in (0, 2 ** 32 - 70000):
+                cases.append(Case(ops=[f"apply {_key(rng)} {_nonce(rng)} {ctr} gen:{n}:{rng.getrandbits(48)}"], tag="huge"))
         key, cid = _nonzero_key(rng), _id(rng)
         cases.append(Case(ops=[f"mgr_rt {key} {cid} gen:65536:{rng.getrandbits(48)}",
                                f"mgr_rt {key} {cid} gen:1048576:{rng.getrandbits(48)}"], tag="long"))
@@ -697,7 +764,7 @@ def spec() -> Spec:
         post=post,
         per_case_timeout=30.0,
         rule="cases of 1-5 ops on the real ChaCha20.cpp / CryptoManager.cpp: apply at every length 0..200 (swept), at "
-             "63/64/65 … 511/512/513 and at 64 KiB ± 1, counters {0, 1, 2^31, 2^32-2, 2^32-1, 2^32-k, random}, keys/nonces "
+             "63/64/65 … 511/512/513 and at 64 KiB ± 1 (thorough: single calls of 4 MiB + 133 and 8 MiB at counters 0 and 2^32-70000), counters {0, 1, 2^31, 2^32-2, 2^32-1, 2^32-k, random}, keys/nonces "
              "random, all-zero, all-FF, single non-zero byte; apply twice; apply into a pre-filled vector; in place (input span = the output vector), in place twice, input span over a prefix of a longer / of the reserved capacity of a shorter output vector; single blocks; "
              "quarter rounds; CryptoManager static and object round trips (random nonce/key taken from the implementation "
              "as validated hints). distinct = sha256 of the op list; non-trivial = at least one op pushed >= 1 byte through "
